@@ -3,7 +3,7 @@ from __future__ import annotations
 
 import z3
 
-from vf import eq, families, gen, rw, sem
+from vf import eq, families, gen, ieee, rw, sem
 from vf.common import Check, short
 from vf.sem import Val
 
@@ -20,6 +20,25 @@ def _eq(tag, text, e_in, e_outs, rep, conj=False, **kw):
     if r.verdict != 'unsat':
         return ('unknown', None, f'{tag} {text}: {r.verdict} {r.note}', None)
     return ('ok' if r.reach else 'vacuous', None, None, r.secs)
+
+
+def _ieee(tag, text, ins, out, combine_z3, combine_py, rep):
+    """NaN / infinity reading of the comparison skeleton (vf/ieee.py); None when nothing to report"""
+    try:
+        v, info, dt = ieee.differ(combine_z3, ins, out)
+    except Exception as e:  # an error of the harness, never a verdict about the code
+        return ('unknown', None, f'{tag} {text}: IEEE skeleton harness error {type(e).__name__}: {short(e, 120)}', None)
+    if v in ('unsat', 'skip'):
+        return None
+    if v == 'unknown':
+        return ('unknown', None, f'{tag} {text}: IEEE skeleton query unknown', None)
+    want = combine_py([ieee.py_skeleton(e, info['nums'], info['bools']) for e in ins])
+    got = ieee.py_skeleton(out, info['nums'], info['bools'])
+    if want == got:
+        return ('unknown', None, f'{tag} {text}: IEEE skeleton model did not reproduce in Python floats: {info["shown"]}', None)
+    rep = dict(rep)
+    rep.update({'ieee': info['shown'], 'output': [str(out)], 'expected': want, 'got': got})
+    return ('finding', f'{tag}-ieee@{text}', f'{tag} (IEEE reading): {text} vs {out}; with {info["shown"]} expected {want}, got {got}', rep)
 
 
 def case(item) -> tuple:
@@ -51,7 +70,12 @@ def case(item) -> tuple:
                 bad = None if n.is_vacuous else rw.check_valid(n)
                 if bad:
                     return ('finding', f'negate-invalid@{text}', f'negate() of {{{text}}} is invalid: {bad}', rep)
-                return _eq('negate-is-not-negation', text, Not(gen.build(spec)), [n.condition], rep)
+                r = _eq('negate-is-not-negation', text, Not(gen.build(spec)), [n.condition], rep)
+                if r[0] in ('ok', 'vacuous') and not n.is_vacuous:
+                    r2 = _ieee('negate-is-not-negation', text, [f], n.condition, lambda zs: z3.Not(zs[0]), lambda vs: not vs[0], rep)
+                    if r2 is not None:
+                        return r2
+                return r
             if op == 'join':
                 spec2 = item[2]
                 ast2, _ = rw.build_or_none(spec2)
@@ -67,6 +91,10 @@ def case(item) -> tuple:
                 r = _eq('join-is-not-conjunction', f'{text} JOIN {ast2}', ref, [j.condition], rep)
                 if r[0] == 'finding':
                     return r
+                if not j.is_vacuous:
+                    r2 = _ieee('join-is-not-conjunction', f'{text} JOIN {ast2}', [f, pred2.condition], j.condition, lambda zs: z3.And(*zs), lambda vs: all(vs), rep)
+                    if r2 is not None:
+                        return r2
                 # vacuous truth = identity, contradiction = annihilator, both orders
                 T, F = HplVacuousTruth(), HplContradiction()
                 checks = [(pred.join(T), pred), (T.join(pred), pred), (pred.join(F), F), (F.join(pred), F)]
